@@ -164,6 +164,9 @@ func c08Check(r *vkit.Run, in c08Input) bool {
 
 func c08Run(r *vkit.Run) {
 	maxLen := 3
+	if r.Thorough() {
+		maxLen = 4
+	}
 	idx := 0
 	var seqs [][]int
 	var rec func(cur []int)
